@@ -9,6 +9,10 @@
 //                            (no dumps, no oracle, no extra temporaries) so that the allocation trace
 //                            appended by vh::emit (-DVERIF_LEDGER) is the library's own; the model of
 //                            that trace is lean/Qentem/Model/HashLedger.lean (driver op htled)
+// Arguments aliasing an element of the same table (value semantics: read the argument first):
+//   IV/k/k2  Insert(k, <value stored under k2>)  both const-value overloads     IK/i/v  Insert(<key at slot i>, v)
+//   IKV/i/j  Insert(<key at slot i>, <value at slot j>)    GK/i  h[<key at slot i>]    RK/i  Remove(<key at slot i>)
+//   NK/i/to  Rename(<key at slot i>, to)                   NT/i/from  Rename(from, <key at slot i>)
 // Record = out#size cap heads#items, items = key/Hash/Next/value-id joined by ';'.
 // Bucket heads are read at Storage() - Capacity() (HashTable.hpp layout), no private access.
 #include "ledger.hpp" // first: with -DVERIF_LEDGER the library's Allocate/Deallocate are logged
@@ -266,6 +270,59 @@ struct Runner {
     template <bool B = HasValue>
     typename std::enable_if<!B, bool>::type valueIdxOk(SizeT, const HItem *) { return true; }
 
+    // Insert(key, const Value_T &value) where `value` is the value stored under key2 in this table
+    template <bool B = HasValue>
+    typename std::enable_if<B, std::string>::type aliasInsertValue(const std::string &ks, const std::string &ks2) {
+        vh::ExactBuf<char> kb2(units_of(ks2));
+        const char        *kp2 = kb2.p;
+        const auto        *pv  = h.GetValue(kp2, SizeT(kb2.n));
+        if (pv == nullptr) return "u";
+        const uint64_t id = VT::id(*pv); // what the argument is worth before the call
+        if (rot++ % 2) {
+            Key k(ks.data(), SizeT(ks.size()));
+            h.Insert(k, *pv); // (const Key_T &, const Value_T &)
+        } else {
+            h.Insert(Key(ks.data(), SizeT(ks.size())), *pv); // (Key_T &&, const Value_T &)
+        }
+        refPut(ks, id);
+        return "u";
+    }
+    template <bool B = HasValue>
+    typename std::enable_if<!B, std::string>::type aliasInsertValue(const std::string &, const std::string &) { return "u"; }
+
+    // Insert(<stored key at slot i>, ...): the key argument is an element of this table
+    template <bool B = HasValue>
+    typename std::enable_if<B, std::string>::type aliasInsertKey(SizeT i, bool value_too, uint64_t m) {
+        const Key *k = h.GetKey(i);
+        if (k == nullptr) return "u";
+        const std::string ks(k->First(), k->Length());
+        if (value_too) {
+            const auto *pv = h.GetValue(SizeT(m));
+            if (pv == nullptr) return "u";
+            const uint64_t id = VT::id(*pv);
+            h.Insert(*k, *pv); // both arguments live in the table
+            refPut(ks, id);
+        } else {
+            h.Insert(*k, VT::make(m));
+            refPut(ks, m);
+        }
+        return "u";
+    }
+    template <bool B = HasValue>
+    typename std::enable_if<!B, std::string>::type aliasInsertKey(SizeT i, bool, uint64_t) {
+        const Key *k = h.GetKey(i);
+        if (k == nullptr) return "u";
+        h.Insert(*k); // HList::Insert(const Key_T &)
+        return "u";
+    }
+    template <bool B = HasValue>
+    typename std::enable_if<B, std::string>::type aliasGet(const Key &k) {
+        auto &v = h[k]; // operator[](const Key_T &) with the stored key
+        return "v" + std::to_string(VT::id(v));
+    }
+    template <bool B = HasValue>
+    typename std::enable_if<!B, std::string>::type aliasGet(const Key &) { return "u"; }
+
     // returns the `out` field; "" = malformed op
     std::string apply(const std::string &op, size_t step) {
         auto                  f = vh::split(op, '/');
@@ -340,6 +397,48 @@ struct Runner {
             }
             h.Expect(i);
             return "u";
+        }
+        // ---- arguments that refer to an element of the SAME table (value semantics: the argument is
+        //      read before anything changes); slot numbers address the element
+        if (c == "IV" && f.size() == 3 && vh::parse_nats(f[1], u) && vh::parse_nats(f[2], u2)) {
+            // Insert(key, const Value_T &) with the value of key2 stored in this table
+            const std::string ks = key_bytes(u), ks2 = key_bytes(u2);
+            universe.insert(ks);
+            universe.insert(ks2);
+            return aliasInsertValue(ks, ks2);
+        }
+        if ((c == "IK" || c == "IKV") && f.size() == 3 && num(f[1], n) && n < 100000) {
+            uint64_t m = 0;
+            if (!num(f[2], m)) return "";
+            return aliasInsertKey(SizeT(n), c == "IKV", m);
+        }
+        if ((c == "GK" || c == "RK") && f.size() == 2 && num(f[1], n) && n < 100000) {
+            const Key *k = h.GetKey(SizeT(n));
+            if (k == nullptr) return "u";
+            const std::string ks(k->First(), k->Length());
+            if (c == "RK") {
+                h.Remove(*k); // the argument is the stored key itself
+                refErase(ks);
+                return "u";
+            }
+            return aliasGet(*k);
+        }
+        if ((c == "NK" || c == "NT") && f.size() == 3 && vh::parse_nats(f[2], u)) {
+            // NK/i/to: Rename(<stored key at i>, to)      NT/i/from: Rename(from, <stored key at i>)
+            if (!num(f[1], n) || n >= 100000) return "";
+            const std::string other = key_bytes(u);
+            universe.insert(other);
+            const Key *k = h.GetKey(SizeT(n));
+            if (k == nullptr) return "u";
+            const std::string stored(k->First(), k->Length());
+            Key               o(other.data(), SizeT(other.size()));
+            const std::string ka = (c == "NK") ? stored : other, kb2 = (c == "NK") ? other : stored;
+            const bool        r  = (c == "NK") ? ((rot++ % 2) ? h.Rename(*k, o) : h.Rename(*k, Memory::Move(o))) : h.Rename(o, *k);
+            const long        i  = refFind(ka);
+            const bool        expect = (i >= 0 && refFind(kb2) < 0);
+            if (expect) ref[size_t(i)].first = kb2;
+            if (expect != r) bad("Rename returned the wrong flag", step);
+            return std::string("b") + (r ? "1" : "0");
         }
         if (c == "N" && f.size() == 3 && vh::parse_nats(f[1], u) && vh::parse_nats(f[2], u2)) {
             vh::ExactBuf<char> a(u), b(u2);
